@@ -23,7 +23,7 @@ VARIABLES decl, assoc, occ, par
 vars == <<decl, assoc, occ, par>>
 
 S == [i \in Scopes |-> [id |-> i, kind |-> Kind[i], name |-> "u", parent |-> par[i], encl |-> Encl[i], tparent |-> par[i],
-                        declared |-> SetToSeq(decl[i]), imported |-> <<>>, assoc |-> SetToSeq(IF i = 3 THEN assoc ELSE {}), wild |-> FALSE]]
+                        declared |-> SetToSeq(decl[i]), imported |-> <<>>, decls |-> SetToSeq(decl[i]), assoc |-> SetToSeq(IF i = 3 THEN assoc ELSE {}), wild |-> FALSE]]
 Occ(o) == [name |-> o.name, kind |-> "var", scope |-> o.scope, at |-> o.at, role |-> "use", member |-> FALSE]
 O == SetToSeq({Occ(o) : o \in occ})
 ChainOf(s) == Chain(S, s)
@@ -72,5 +72,7 @@ InlineNoRescope == \A o \in occ : (o.at = 4 /\ o.scope = 4) =>
 RemoveUsedDecl == \A o \in occ : (o.scope \in Declaring /\ ~\E t \in ChainOf(o.at) \ {o.scope} : Introduces(t, o.name)) =>
      LET S2 == [S EXCEPT ![o.scope].declared = SetToSeq(decl[o.scope] \ {o.name})] IN "RS" \in Codes(Offenders(S2, O))
 LostParent == \A s \in {3, 4} : LET S2 == [S EXCEPT ![s].parent = 0] IN "PL" \in Codes(Offenders(S2, O))
+DuplicateDecl == \A s \in Declaring : \A n \in decl[s] :
+     LET S2 == [S EXCEPT ![s].decls = SetToSeq(decl[s]) \o <<n>>] IN "UN" \in Codes(Offenders(S2, O))
 ForeignScope == \A o \in occ : LET O2 == SetToSeq({Occ(p) : p \in (occ \ {o}) \cup {[o EXCEPT !.scope = -1]}}) IN "SC" \in Codes(Offenders(S, O2))
 =============================================================================
